@@ -40,7 +40,9 @@ class SimQueue(SimProxyBase):
             sim.count('put_blocked_on_full_queue')
             if not block:
                 raise _queue.Full
-        sim.seam('queue.put', cond=lambda: not full())
+        sim.seam('queue.put', cond=lambda: not full() or self.env.manager_closed)
+        if self.env.manager_closed:
+            raise EOFError('simulated manager has shut down')     # what a blocked proxy call sees when the server goes away
         self.items.append(data)
         self.puts += 1
         self.max_depth = max(self.max_depth, len(self.items))
@@ -56,7 +58,9 @@ class SimQueue(SimProxyBase):
             sim.count('get_blocked_on_empty_queue')
             if not block:
                 raise _queue.Empty
-        sim.seam('queue.get', cond=lambda: len(self.items) > 0)
+        sim.seam('queue.get', cond=lambda: len(self.items) > 0 or self.env.manager_closed)
+        if not self.items and self.env.manager_closed:
+            raise EOFError('simulated manager has shut down')
         data = self.items.popleft()
         self.gets += 1
         item = pickle.loads(data)
@@ -227,6 +231,12 @@ class SimProcess:
     def start(self):
         env, sim = self.env, self.env.sim
         sim.seam('process.start', cost=env.start_cost)
+        nth = len([p for p in env.procs if p.task is not None])
+        if env.start_fault is not None and nth == env.start_fault:
+            env.start_fault_fired = True
+            sim.count('fault_F6start')
+            sim.trace.append(('fault', 'F6start', nth))
+            raise OSError(11, 'Resource temporarily unavailable (injected: fork failed)')
         # fork semantics: the child gets a copy of memory, shares only the channels
         target, args, kwargs = self.target, self.args, self.kwargs
         memo = {}
@@ -284,6 +294,8 @@ class Env:
         self.manager_closed = True
         self.queues, self.lists, self.procs = [], [], []
         self.on_child_start = None
+        self.start_fault = None
+        self.start_fault_fired = False
         self._saved = {}
 
     def speed_of(self, idx):
